@@ -4,17 +4,21 @@ from .. import fmm, fx, rules
 from . import c11
 
 LEVEL = "other"
-TECHNIQUE = "symbolic extraction of the FMM near-field kernels (vs dense kernels and their gradients), non-commutative term normalisation of the FMM evaluators, index-bound analysis of the space-to-point maps, registry/branch exhaustiveness"
+TECHNIQUE = "symbolic extraction of the FMM near-field kernels (vs dense kernels and their gradients), non-commutative term normalisation of the scalar, hypersingular, Maxwell and potential FMM evaluators, index-bound and row-convention analysis of the coefficient-to-point maps, finite-domain abstract execution of the evaluator selectors"
 LEVEL_TEXT = (
     "No FMM library exists in this sandbox; only source can be examined.  Decided: the three near-field kernels are "
     "the dense single-layer kernel and its gradient in the target point with coincident pairs zeroed; the scalar and "
     "hypersingular evaluators are the operator expressions T E0 S, -T sum E_i Ns_i S, T sum Nt_i E_i S and the "
-    "curl/normal decompositions with the sign of the k^2 term of the dense assemblers; the space-to-point maps write "
-    "inside the arrays they allocate (segment spaces included); every registered assembly type has an evaluator; the "
-    "edge-length copy in the RWG divergence transform follows the library's edge convention."
+    "curl/normal decompositions with the sign of the k^2 term of the dense assemblers; the Maxwell boundary evaluators "
+    "and all potential evaluators are the operator terms of the dense integrands (-ik Rt G R - (ik)^-1 Dt G D, "
+    "-Rt (grad_x G x R), with the test-side maps taken from dual_to_range when the spaces differ); the "
+    "coefficient-to-point transforms use the point cloud's row convention (nq rows per grid element, by element "
+    "number) and write inside the arrays they allocate (segment spaces included); for every boundary operator "
+    "descriptor the selector chain reaches the closure verified for that operator; the edge-length copy in the RWG "
+    "divergence transform follows the library's edge convention."
 )
-LEVEL_NOTE = "Not decided: agreement 'to rounding' and reproduction of the recorded reference vectors (need execution and an FMM library); Maxwell evaluator closures are covered only through their transforms' edge convention."
-EXPLANATION = "rules FMM-NEAR-KERNELS, FMM-EVALUATORS, FMM-DISPATCH, FMM-BOUNDS, FMM-ROWS, EDGE-CONV, K-SPEC (dense reference)"
+LEVEL_NOTE = "Not decided: agreement 'to rounding' and reproduction of the recorded reference vectors (need execution and an FMM library); the exafmm binding itself (C++ extension, absent here)."
+EXPLANATION = "rules FMM-NEAR-KERNELS, FMM-EVALUATORS, FMM-MAXWELL-TERMS, FMM-DISPATCH, FMM-BOUNDS, FMM-ROWS, EDGE-CONV, K-SPEC (dense reference)"
 ASSUMPTIONS = ["fmm_interface.evaluate returns [potential, gradient in the target] per target point", "Numba arithmetic semantics"]
 
 
@@ -23,5 +27,6 @@ def run(ctx):
     fmm.evaluator_terms(ctx)
     fmm.point_map_bounds(ctx)
     fmm.transform_rows(ctx)
+    fmm.maxwell_terms(ctx)
     c11.edge_convention(ctx)
     rules.kernel_specs(ctx, ("laplace", "helmholtz", "modified_helmholtz"), include_singular=False)
